@@ -56,6 +56,9 @@ func emit(id string, c rtgen.CaseT, st *hx.Stats) string {
 		} else {
 			st.Count("static_routes_lt10")
 		}
+		if c.Warm {
+			st.Count("script_warmup_before_registrations")
+		}
 		if c.Eng.Version != "" {
 			st.Count("engine_version_tree")
 		} else {
@@ -105,6 +108,10 @@ func fixed() []rtgen.CaseT {
 		mk(many, G, "/c/5", on), mk(many, G, "/c/list", on), mk(many, G, "/zz/list", on), mk(many, G, "/\xc3\xa9/list", on),
 		mk(many, G, "/s/c", rtgen.EngineT{Compiled: true, BloomSize: 3, BloomK: 2, Version: "v1"}), mk(many, G, "/s/zz", rtgen.EngineT{BloomSize: 1, BloomK: 1, Version: "v1"}),
 		mk(many, "POST", "/s/c", rtgen.EngineT{Compiled: true, BloomSize: 64, BloomK: 12}),
+		// explicit Warmup() while the main tree has no static route yet, static + same-shape param route after it
+		{Script: []rtgen.RegT{reg(G, "/users/:id"), reg(G, "/users/me")}, Req: rtgen.ReqT{Method: G, Path: "/users/me"}, Eng: on, Warm: true, WarmupAt: 0},
+		{Script: []rtgen.RegT{reg(G, "/posts/:id"), reg(G, "/users/me"), reg(G, "/users/:id")}, Req: rtgen.ReqT{Method: G, Path: "/users/me"}, Eng: on, Warm: true, WarmupAt: 1},
+		{Script: []rtgen.RegT{reg(G, "/health"), reg(G, "/users/me"), reg(G, "/users/:id")}, Req: rtgen.ReqT{Method: G, Path: "/users/me"}, Eng: on, Warm: true, WarmupAt: 1},
 		mk([]rtgen.RegT{reg(G, "/a/:x ")}, G, "/a/1", on), mk([]rtgen.RegT{reg(G, "/ ")}, G, "/", on),
 		mk([]rtgen.RegT{reg(G, "/u/:id", rtgen.ConsT{Name: "id", Kind: "int"}, rtgen.ConsT{Name: "id", Kind: "where", Arg: "[1-9].*"})}, G, "/u/07", on),
 		mk([]rtgen.RegT{reg(G, "/u/:id", rtgen.ConsT{Name: "uid", Kind: "int"})}, G, "/u/7", on),
@@ -157,8 +164,31 @@ func main() {
 			script := rtgen.GenScriptWide(r)
 			nr := r.Chance(1, 4)
 			eng := genEngine(r)
+			// explicit r.Warmup() before or among the registrations (main tree only). The routes after it
+			// are registered immediately; they carry no constraints here, because every Where* would
+			// re-register them (RemoveRoute swaps the dynamic list, which the model does not replay).
+			warm, warmAt := false, 0
+			if eng.Version == "" && r.Chance(1, 4) {
+				warm = true
+				warmAt = r.Intn(len(script) + 1)
+				switch r.Intn(3) {
+				case 0:
+					warmAt = 0
+				case 1: // just before the first parameter-free route: warm-up with zero static routes
+					for k, g := range script {
+						if !strings.Contains(g.FullPath(), ":") && !strings.HasSuffix(g.FullPath(), "*") {
+							warmAt = k
+							break
+						}
+					}
+				}
+				script = append([]rtgen.RegT(nil), script...)
+				for k := warmAt; k < len(script); k++ {
+					script[k].Cons = nil
+				}
+			}
 			for j := 0; j < perScript && i < a.N; j++ {
-				c := rtgen.CaseT{NoRoute: nr, Script: script, Req: rtgen.GenReqWide(r, script), Eng: eng}
+				c := rtgen.CaseT{NoRoute: nr, Script: script, Req: rtgen.GenReqWide(r, script), Eng: eng, Warm: warm, WarmupAt: warmAt}
 				fmt.Fprintln(w, emit(fmt.Sprintf("c11-%d-%d", a.Seed, i), c, st))
 				i++
 			}
